@@ -22,43 +22,43 @@ Qed.
 Lemma bools_to_flags_nonneg : forall l, (0 <= bools_to_flags l)%Z.
 Proof. induction l as [|b l IH]; cbn [bools_to_flags]; [lia|]. destruct b; lia. Qed.
 
-Lemma gen_bools_to_bit_flags_loop_spec : forall l i acc,
-  (0 <= i)%Z -> (0 <= acc < 2 ^ i)%Z ->
-  gen_bools_to_bit_flags_loop l i acc = Ok (acc + 2 ^ i * bools_to_flags l)%Z.
-Proof.
-  induction l as [|b l IH]; intros i acc Hi Ha; gen_step gen_bools_to_bit_flags_loop; cbn [bools_to_flags].
-  - f_equal. lia.
-  - assert (P : (2 ^ (i + 1) = 2 * 2 ^ i)%Z) by (rewrite Z.pow_add_r by lia; lia).
-    pose proof (bools_to_flags_nonneg l) as Hl.
-    (* whatever the shape of the test on the element: split on every condition, drop the impossible branches *)
-    repeat (gen_case; try solve [exfalso; gen_lin]);
-      rewrite ?setbit_above by assumption; rewrite IH by lia; f_equal; rewrite ?P; lia.
-Qed.
-
-(* (a) generated = modelled *)
+(* (a) generated = modelled; the loops are found through their call markers *)
 Theorem gen_bools_to_bit_flags_eq : forall l, gen_bools_to_bit_flags l = Ok (bools_to_flags l).
 Proof.
-  intros l. unfold gen_bools_to_bit_flags. cbv zeta. rewrite gen_bools_to_bit_flags_loop_spec by lia.
-  f_equal. change (2 ^ 0)%Z with 1%Z. lia.
+  intros l0. gen_open.
+  lazymatch goal with
+  | |- context [gen_loop3 ?f _ _ _] =>
+      assert (L : forall l i acc, (0 <= i)%Z -> (0 <= acc < 2 ^ i)%Z ->
+                    f l i acc = Ok (acc + 2 ^ i * bools_to_flags l)%Z)
+  end.
+  { induction l as [|b l IH]; intros i acc Hi Ha;
+      lazymatch goal with |- ?lhs = _ => let h := gen_head lhs in cbn [h]; cbv zeta end; cbn [bools_to_flags].
+    - f_equal. lia.
+    - assert (P : (2 ^ (i + 1) = 2 * 2 ^ i)%Z) by (rewrite Z.pow_add_r by lia; lia).
+      pose proof (bools_to_flags_nonneg l) as Hl.
+      (* whatever the shape of the test on the element: split on every condition, drop the impossible branches *)
+      repeat (gen_case; try solve [exfalso; gen_lin]);
+        rewrite ?setbit_above by assumption; rewrite IH by lia; f_equal; rewrite ?P; lia. }
+  unfold gen_loop3. rewrite L by lia. f_equal. change (2 ^ 0)%Z with 1%Z. lia.
 Qed.
 Print Assumptions gen_bools_to_bit_flags_eq.
-
-Lemma gen_bit_flags_to_bools_loop_spec : forall z n i acc,
-  (0 <= i)%Z ->
-  gen_bit_flags_to_bools_loop z n i acc = Ok (acc ++ flags_to_bools (Z.shiftr z i) n).
-Proof.
-  intros z. induction n as [|n IH]; intros i acc Hi; gen_step gen_bit_flags_to_bools_loop; cbn [flags_to_bools].
-  - now rewrite app_nil_r.
-  - destruct (Z.ltb_spec i 0); [lia|]. rewrite IH by lia. rewrite <- app_assoc. cbn [app].
-    rewrite Z.div2_spec, Z.shiftr_shiftr by lia. rewrite <- Z.testbit_odd.
-    destruct (Z.testbit z i); reflexivity.
-Qed.
 
 Theorem gen_bit_flags_to_bools_eq : forall z size,
   gen_bit_flags_to_bools z size = Ok (flags_to_bools z (Z.to_nat size)).
 Proof.
-  intros z size. unfold gen_bit_flags_to_bools. cbv zeta. rewrite gen_bit_flags_to_bools_loop_spec by lia.
-  cbn [app]. rewrite Z.shiftr_0_r, Z.sub_0_r. reflexivity.
+  intros z size. gen_open.
+  lazymatch goal with
+  | |- context [gen_loop3 ?f _ _ _] =>
+      assert (L : forall n i acc, (0 <= i)%Z -> f n i acc = Ok (acc ++ flags_to_bools (Z.shiftr z i) n))
+  end.
+  { induction n as [|n IH]; intros i acc Hi;
+      lazymatch goal with |- ?lhs = _ => let h := gen_head lhs in cbn [h]; cbv zeta end; cbn [flags_to_bools].
+    - now rewrite app_nil_r.
+    - repeat (gen_case; try solve [exfalso; gen_lin]);
+        rewrite IH by lia; rewrite <- app_assoc; cbn [app];
+        rewrite Z.div2_spec, Z.shiftr_shiftr by lia; rewrite <- Z.testbit_odd;
+        repeat match goal with H : Z.testbit _ _ = _ |- _ => rewrite H end; reflexivity. }
+  unfold gen_loop3. rewrite L by lia. cbn [app]. rewrite Z.shiftr_0_r, ?Z.sub_0_r. reflexivity.
 Qed.
 Print Assumptions gen_bit_flags_to_bools_eq.
 
